@@ -411,6 +411,28 @@ def _is_xt(o):
     return mod.startswith('xtuml') or mod.startswith('bridgepoint')
 
 
+# the fields the PARSER gives a statement object (recorded right after input(), per statement class); an attribute
+# a later build adds to a statement — private bookkeeping such as a memo — is not part of what the property speaks
+# about and is neither followed nor compared (counted in the stats as `statement-memo-attributes`)
+_STMT_FIELDS = {}
+_MEMO_SEEN = set()
+
+
+def _is_stmt(o):
+    return type(o).__module__ == 'xtuml.load' and type(o).__name__.endswith('Stmt')
+
+
+def _stmt_items(o):
+    fields = _STMT_FIELDS.get(type(o).__name__)
+    out = []
+    for k, v in vars(o).items():
+        if k.startswith('_') or (fields is not None and k not in fields):
+            _MEMO_SEEN.add((type(o).__name__, k))
+            continue
+        out.append((k, v))
+    return out
+
+
 def walk(root, role='root'):
     """id -> (object, role) of every mutable object reachable from root; role = how it was reached"""
     import types
@@ -440,6 +462,9 @@ def walk(root, role='root'):
         elif tn == 'OrderedSet' or tn == 'QuerySet':
             for v in list(o):
                 stack.append((v, r + '[]'))
+        elif _is_stmt(o):
+            for k, v in _stmt_items(o):
+                stack.append((v, '%s.%s' % (tn, k)))
         elif _is_xt(o) and hasattr(o, '__dict__'):
             for k, v in vars(o).items():
                 stack.append((v, '%s.%s' % (tn if not isinstance(o, _x.Class) else 'Class', k)))
@@ -465,6 +490,8 @@ def shallow(o):
             return sorted(repr(key(v)) for v in o)
         if type(o).__name__ in ('OrderedSet', 'QuerySet'):
             return [key(v) for v in list(o)]
+        if _is_stmt(o):
+            return [(k, key(v)) for k, v in _stmt_items(o)]
         if hasattr(o, '__dict__'):
             return [(k, key(v)) for k, v in vars(o).items()]
     except Exception:
@@ -609,6 +636,8 @@ def run_impl(case):
     obs = []
     changed_some = False
     stats = {'fam_' + case['fam']: 1, 'ops': len(case['ops'])}
+    _STMT_FIELDS.clear()
+    _MEMO_SEEN.clear()
     for step, op in enumerate(case['ops']):
         before = [(dump(h), ser(h)) for h in handles]
         target = None
@@ -625,6 +654,8 @@ def run_impl(case):
             text = G.text_of(chunks[len(accepted)]) if len(accepted) < len(chunks) else ''
             loader.input(text)
             accepted.append(text)
+            for st in loader.statements:
+                _STMT_FIELDS.setdefault(type(st).__name__, set(vars(st)))
         elif op[0] == 'reject':
             # an input call that is refused: a valid prefix (the text of the chunk that would be read next — or of the
             # last one — so that a leaked prefix shows in every later build), then a syntax error / an illegal character
@@ -719,8 +750,11 @@ def run_impl(case):
                      % (step, dumps(_enc_op(op, case)), type(o).__name__, role, root))
                 break
         obs.append([res] + [Sym('own-generator') if j in defaults else _digest(a[0]) for j, a in enumerate(after)])
+    if _MEMO_SEEN:
+        stats['statement-memo-attributes'] = len(_MEMO_SEEN)
     if case.get('discard'):
         _discard_rounds(chunks, fail, stats)
+        _retyped_build(fail, stats)
     nontrivial = len([h for h in handles if h.m is not None]) >= 2 and changed_some
     return {'obs': obs, 'd_fail': fails, 'nontrivial': nontrivial,
             'key': dumps([_enc_op(o, case) for o in case['ops']]) + '|' + str(hash(repr(chunks))),
@@ -752,6 +786,32 @@ def _discard_rounds(chunks, fail, stats):
         m = None
         gc.collect()
     stats['discard_rounds'] = 1
+
+
+def _retyped_build(fail, stats):
+    """rows read and BUILT before their CREATE TABLE (the class is inferred from the lexemes: INTEGER, INTEGER, STRING),
+    then the CREATE TABLE declares other types for the same lexemes; the build after it holds the values as the DECLARED
+    types read them (whatever a loader remembered of the first build must not show) — expectation from the text alone"""
+    loader = _x.ModelLoader()
+    loader.input("INSERT INTO KR VALUES (1, 7, 'x');\nINSERT INTO KR VALUES (0, 2, '');\n")
+    want1 = [(1, 7, 'x'), (0, 2, '')]
+    want2 = [(True, 7.0, 'x'), (False, 2.0, '')]
+    for rnd, (text, names, want) in enumerate([('', ['_0', '_1', '_2'], want1),
+                                                ('CREATE TABLE KR (r0 BOOLEAN, r1 REAL, r2 STRING);\n', ['r0', 'r1', 'r2'], want2),
+                                                ('', ['r0', 'r1', 'r2'], want2)]):
+        if text:
+            loader.input(text)
+        try:
+            m = loader.build_metamodel(_x.IntegerGenerator())
+        except _DOC as e:
+            fail('retyped-build-raises', 'build %d of the retyped scenario raised %s: %s' % (rnd, type(e).__name__, e))
+            return
+        got = [tuple(inst.__dict__.get(n) for n in names) for inst in m.find_metaclass('KR').storage]
+        if got != want or [tuple(type(x) for x in r) for r in got] != [tuple(type(x) for x in r) for r in want]:
+            fail('build-row-differs', 'build %d (CREATE TABLE KR (r0 BOOLEAN, r1 REAL, r2 STRING) %s) holds the KR rows %r, the '
+                 'accepted input says %r' % (rnd, 'accepted' if rnd else 'not yet accepted', got, want))
+            return
+    stats['retyped_build'] = 1
 
 
 def _check_build_from_input(m, stmts, fail, which):
